@@ -87,29 +87,31 @@ SplitSec(b) == LET a1 == TruncDivSmall(b, 1000)
                IN [secs |-> a3.q, sub |-> a3.r * 1000000 + a2.r * 1000 + a1.r]
 DefaultLargest(A) == IF A.y.s # 0 THEN "year" ELSE IF A.mo.s # 0 THEN "month" ELSE IF A.w.s # 0 THEN "week" ELSE IF A.d.s # 0 THEN "day"
                      ELSE IF A.h.s # 0 THEN "hour" ELSE IF A.mi.s # 0 THEN "minute" ELSE "second"
-\* fixed precision below nanoseconds: the time part is truncated to the precision and re-balanced up to the default largest unit
-BalanceFor(A, p) ==
-  IF p = -1 \/ p = 9 THEN A ELSE
-  LET tt == SplitSec(TimeNs(A))
-      sub == (tt.sub \div Pow10I(9 - p)) * Pow10I(9 - p)
-      lg == DefaultLargest(A)
+\* the time part tt = [secs, sub] (already cut to the precision) re-balanced up to the default largest unit of A
+BalanceWith(A, tt) ==
+  LET lg == DefaultLargest(A)
       qm == TruncDivSmall(tt.secs, 60)
       qh == TruncDivSmall(qm.q, 60)
       qd == TruncDivSmall(qh.q, 24)
       fs(x) == [A EXCEPT !.ms = FromInt(x \div 1000000), !.us = FromInt((x \div 1000) % 1000), !.ns = FromInt(x % 1000)]
-  IN IF lg \in {"year", "month", "week", "day"} THEN [fs(sub) EXCEPT !.d = Add(A.d, qd.q), !.h = FromInt(qd.r), !.mi = FromInt(qh.r), !.s = FromInt(qm.r)]
-     ELSE IF lg = "hour" THEN [fs(sub) EXCEPT !.h = qh.q, !.mi = FromInt(qh.r), !.s = FromInt(qm.r)]
-     ELSE IF lg = "minute" THEN [fs(sub) EXCEPT !.mi = qm.q, !.s = FromInt(qm.r)]
-     ELSE [fs(sub) EXCEPT !.s = tt.secs]
+  IN IF lg \in {"year", "month", "week", "day"} THEN [fs(tt.sub) EXCEPT !.d = Add(A.d, qd.q), !.h = FromInt(qd.r), !.mi = FromInt(qh.r), !.s = FromInt(qm.r)]
+     ELSE IF lg = "hour" THEN [fs(tt.sub) EXCEPT !.h = qh.q, !.mi = FromInt(qh.r), !.s = FromInt(qm.r)]
+     ELSE IF lg = "minute" THEN [fs(tt.sub) EXCEPT !.mi = qm.q, !.s = FromInt(qm.r)]
+     ELSE [fs(tt.sub) EXCEPT !.s = tt.secs]
+\* fixed precision below nanoseconds: the time part is truncated to the precision and re-balanced up to the default largest unit
+BalanceFor(A, p) ==
+  IF p = -1 \/ p = 9 THEN A ELSE
+  LET tt == SplitSec(TimeNs(A)) IN BalanceWith(A, [secs |-> tt.secs, sub |-> (tt.sub \div Pow10I(9 - p)) * Pow10I(9 - p)])
 Part(b, des) == IF b.s = 0 THEN "" ELSE BigText(b) \o des
-FmtDuration(D, p) ==
-  LET A == BalanceFor(AbsDur(D), p)
-      ss == SplitSec(SecNs(A))
+\* D: the duration (for its sign), A: its balanced absolute value
+FmtDurationA(D, A, p) ==
+  LET ss == SplitSec(SecNs(A))
       datePart == Part(A.y, "Y") \o Part(A.mo, "M") \o Part(A.w, "W") \o Part(A.d, "D")
       secPart == IF SecNs(A).s # 0 \/ DefaultLargest(A) = "second" \/ p # -1
                  THEN BigText(ss.secs) \o Frac(ss.sub, p) \o "S" ELSE ""
       timePart == Part(A.h, "H") \o Part(A.mi, "M") \o secPart
   IN (IF DurSign(D) = -1 /\ DurSign(A) # 0 THEN "-" ELSE "") \o "P" \o datePart \o (IF timePart = "" THEN "" ELSE "T" \o timePart)
+FmtDuration(D, p) == FmtDurationA(D, BalanceFor(AbsDur(D), p), p)
 \* the value a duration string stands for: sub-second fields folded into seconds and re-split
 Fold(D) == LET A == AbsDur(D)
                ss == SplitSec(SecNs(A))
